@@ -458,6 +458,9 @@ func (e *SpecEnv) fieldStep(cur Val, i int) Val {
 		if sc, ok := v.(Scalar); ok && !strings.Contains(sc.T, "!q") {
 			if ii, ok := isIntType(sc.Ty); ok {
 				e.c.assume(e.s, e.c.ar.rangeAssume(sc.T, ii))
+				if max, ok := e.c.fieldBound(typeName(st), structOf(st).Field(i).Name()); ok {
+					e.c.assume(e.s, e.c.ar.cmp(token.LEQ, sc.T, e.c.ar.litI(max, ii), ii))
+				}
 			}
 		}
 		if sl, ok := v.(SliceV); ok && !strings.Contains(sl.Arr+sl.Len, "!q") {
@@ -1349,7 +1352,10 @@ func (e *SpecEnv) quant(kind string, args []ast.Expr) Val {
 				specFail("trigger must be scalar")
 			}
 		}
-		pat = " :pattern (" + strings.Join(ps, " ") + ")"
+		// (a term with an if-then-else is not a legal pattern: the solver then chooses its own)
+		if !strings.Contains(strings.Join(ps, " "), "(ite ") {
+			pat = " :pattern (" + strings.Join(ps, " ") + ")"
+		}
 	}
 	var t string
 	if kind == "forall" {
